@@ -2,6 +2,13 @@ CONSTANTS NPts = 5
           NDays = 2
           NSlots = 3
           StitchCfg <- StitchSmall
+          NDup = 3
+          MaxMult = 2
+          NDupSlots = 2
+          ZoneCfg <- ZonesQuick
+          NZE = 3
+          NZ2 = 2
+          StitchDupCfg <- DupStitchSmall
+          StitchNaNCfg <- NaNStitchSmall
 INIT Init
 NEXT EvalGen
-
